@@ -1959,24 +1959,46 @@ def extract_select(read, fail):
     # and "the new `rules_applied`" are what the two loops computed: (a) the next statement is
     # `let [mut] x = match FilterHeaderAction::new(filters) {`, (b) `filters` does not occur again, (c) the only use of `self` in the
     # tail is `self.get_applied_rule_ids()` and the identifier `rules_applied` does not occur, (d) that getter still returns the field
-    fvar = lets[0][1]
-    rest = parser.t[parser.i:]
-    texts = [t.text for t in rest]
-    k = 2 if len(texts) > 1 and texts[1] == "mut" else 1
-    want = ["=", "match", "FilterHeaderAction", "::", "new", "(", fvar, ")", "{"]
-    if not texts or texts[0] != "let" or len(texts) < k + 1 + len(want) or rest[k].kind != "id" or texts[k + 1:k + 1 + len(want)] != want:
-        parser.i = min(parser.i, len(parser.t) - 1)
-        parser.fail(f"the statement after the selection loops is no longer `let x = match FilterHeaderAction::new({fvar}) {{`")
-    for j, t in enumerate(rest):
-        if t.kind == "id" and t.text == fvar and j != k + 7:
-            parser.fail(f"`{fvar}` is used again after it was handed to `FilterHeaderAction::new`", t)
-        if t.kind == "id" and t.text == "rules_applied":
-            parser.fail("`rules_applied` is touched after the selection loops", t)
-        if t.kind == "id" and t.text == "self" and texts[j + 1:j + 5] != [".", "get_applied_rule_ids", "(", ")"]:
-            parser.fail("`self` is used after the selection loops other than through `self.get_applied_rule_ids()`", t)
+    try:
+        _check_filter_headers_tail(parser, lets[0][1])
+    except _Fail as e:
+        fail(str(e))
     if not re.search(r"pub fn get_applied_rule_ids\(&self\) -> &LinkedHashSet<String> \{\s*&self\.rules_applied\s*\}", src):
         fail(f"{path}: `get_applied_rule_ids` no longer returns `&self.rules_applied`")
-    cfg = {
+    cfg = _select_headers_cfg(c, ut, rt, hfa)
+    out.append("")
+    out += _emit(cfg, parser, stmts, ("var", lets[0][1], lets[0][4]), fail, _SELECT_DOC + f"translated from {path}.")
+    return out
+
+
+def _check_filter_headers_tail(parser, fvar):
+    if True:
+        rest = parser.t[parser.i:]
+        texts = [t.text for t in rest]
+        k = 2 if len(texts) > 1 and texts[1] == "mut" else 1
+        want = ["=", "match", "FilterHeaderAction", "::", "new", "(", fvar, ")", "{"]
+        if not texts or texts[0] != "let" or len(texts) < k + 1 + len(want) or rest[k].kind != "id" or texts[k + 1:k + 1 + len(want)] != want:
+            parser.i = min(parser.i, len(parser.t) - 1)
+            parser.fail(f"the statement after the selection loops is no longer `let x = match FilterHeaderAction::new({fvar}) {{`")
+        for j, t in enumerate(rest):
+            if t.kind == "id" and t.text == fvar and j != k + 7:
+                parser.fail(f"`{fvar}` is used again after it was handed to `FilterHeaderAction::new`", t)
+            if t.kind == "id" and t.text == "rules_applied":
+                parser.fail("`rules_applied` is touched after the selection loops", t)
+            if t.kind == "id" and t.text == "self" and texts[j + 1:j + 5] != [".", "get_applied_rule_ids", "(", ")"]:
+                parser.fail("`self` is used after the selection loops other than through `self.get_applied_rule_ids()`", t)
+
+
+_SELECT_DOC = (
+    "`Action::filter_headers`, the two selection loops: (the vector `filters`, `rules_applied`) AFTER THE TWO LOOPS.  The rest of the "
+    "function is not translated; its shape is checked when this text is generated (the next statement hands exactly `filters` to "
+    "`FilterHeaderAction::new`, neither `filters` nor `rules_applied` is touched again, `self` is only read through "
+    "`get_applied_rule_ids()` = `&self.rules_applied`); "
+)
+
+
+def _select_headers_cfg(c, ut, rt, hfa):
+    return {
         "name": "genActionSelectHeaderFilters", "tparams": "{φ ι : Type}",
         "params": [("insert", "List ι → ι → List ι"), ("c", "Nat")], "loop_params": [],
         "args": {c: "c"}, "arg_rust_types": {c: "Nat"}, "trace_arg": ut,
@@ -1989,13 +2011,6 @@ def extract_select(read, fail):
         "structs": {"RuleTrace": rt, "HeaderFilterAction": hfa},
         "result_type": "List φ × List ι", "return": lambda tr, v: f"({v}, rulesApplied)",
     }
-    out.append("")
-    out += _emit(cfg, parser, stmts, ("var", lets[0][1], lets[0][4]), fail,
-                 "`Action::filter_headers`, the two selection loops: (the vector `filters`, `rules_applied`) AFTER THE TWO LOOPS.  The rest of the "
-                 "function is not translated; its shape is checked when this text is generated (the next statement hands exactly `filters` to "
-                 "`FilterHeaderAction::new`, neither `filters` nor `rules_applied` is touched again, `self` is only read through "
-                 f"`get_applied_rule_ids()` = `&self.rules_applied`); translated from {path}.")
-    return out
 
 
 def extract_visitor(read, fail):
